@@ -19,6 +19,17 @@ Definition pad_shard (d : nat) (mdb : option nat) (x : list Z) : list (list Z) :
 Definition pad_shard_unpad (f : Z -> Z) (d : nat) (mdb : option nat) (x : list Z) : list Z :=
   firstn (length x) (concat (map (map f) (pad_shard d mdb x))).
 
+(* ---------------- flax/training/common_utils.py: shard, stack_forest, onehot ---------------- *)
+(* shard: reshape (d * n, ...) to (d, n, ...) -- d rows of n examples each *)
+Definition shard (d : nat) (x : list Z) : list (list Z) := chunks (length x / d) x.
+(* stack_forest: a list of trees with the same structure (each given by its leaves) becomes one tree whose leaf j
+   stacks leaf j of every tree *)
+Definition stack_forest (m : nat) (forest : list (list Z)) : list (list Z) :=
+  map (fun j => map (fun t => nth j t 0%Z) forest) (seq 0 m).
+(* onehot: x = labels[..., None] == arange(num_classes); select(x, on, off) *)
+Definition onehot (labels : list Z) (k : nat) (on off : Z) : list (list Z) :=
+  map (fun l => map (fun j => if (Z.of_nat j =? l)%Z then on else off) (seq 0 k)) labels.
+
 (* ---------------- _invert_perm ---------------- *)
 Fixpoint set_nth_nat (i : nat) (v : nat) (l : list nat) : list nat :=
   match l, i with
